@@ -136,6 +136,9 @@ class Gen:
                 v = 3.0
             return [f(v)]
         if name == 'LOG':
+            if r.random() < 0.25:       # exact powers of ten: INT(LOG(1000)) is 3
+                a = [f(10.0 ** r.randint(0, 15))]
+                return a + ([f(10.0)] if r.random() < 0.5 else [])
             a = [f(self.number())]
             if r.random() < 0.7:
                 a.append(f(r.choice((2.0, 10.0, 0.5, 1.0, 0.0, -2.0, 8.0, self.number()))))
@@ -404,6 +407,15 @@ def check(name, args, ctx, numpy_refs=None):
         ctx.violation('%s:%s:%s->%s' % (
             name, argsig(args), _cls(got), '/'.join(sorted(_cls(a) for a in acc))), dict(
             w, observed=xl.show(got), accepted=sorted(map(xl.show, acc))))
+    if name == 'LOG' and got[0] == 'num':
+        v = [a.get('v') for a in args]
+        if all(isinstance(x, float) for x in v) and v[0] >= 1 and (len(v) < 2 or v[1] == 10.0):
+            k = len('%d' % v[0]) - 1
+            if v[0] == 10.0 ** k:
+                ctx.count('monitor.log-exact-power')
+                if got[1] != float(k):
+                    ctx.violation('LOG:power-of-ten-not-exact', dict(
+                        w, observed=xl.show(got), accepted=[repr(float(k))]))
     return got
 
 
